@@ -195,7 +195,7 @@ def run(ctx):
                         continue
                     # without a fixed unit the unit is the largest one not exceeding the size, in the base the
                     # specifier selects: decimal (1000) with `d`, binary (1024) otherwise
-                    mfl = re.match(r"^(?:%\.\d+)?\s?(c|d|s|cs|ds|cd)?$", spec)
+                    mfl = re.match(r"^(?:%\.\d+)?\s?([cds]*)$", spec)
                     if mfl is not None and size > 0:
                         ubase = 1000 if "d" in (mfl.group(1) or "") else 1024
                         want_scale = 0
@@ -205,6 +205,12 @@ def run(ctx):
                             ctx.oracle_fail("the unit is not the largest one not exceeding the size in the specifier's base",
                                             {"size": size, "spec": spec, "level": "in-process format_filesize"},
                                             detail={"text": text, "base": ubase, "expected_power": want_scale})
+                    # the short-unit flag `s`: the unit is its first letter only (K, M, G …), whatever the base and
+                    # whether the unit is chosen or fixed
+                    mfs = re.match(r"^(?:%\.\d+)?\s?([cds]*)(\w*)$", spec)
+                    if mfs is not None and "s" in (mfs.group(1) or "") and unit not in ("", "B") and len(unit) != 1:
+                        ctx.oracle_fail("the short-unit flag `s` is not honoured", {"size": size, "spec": spec, "level": "in-process format_filesize"},
+                                        detail={"text": text})
                     places = len(mnum.group(1).split(".")[1]) if "." in mnum.group(1) else 0
                     ok_any = False
                     for basev in (1024, 1000):
